@@ -182,11 +182,13 @@ def gen_rdbi(rng, n):
         tol = rng.random() < 0.6
         vals = {}
         good = b''
+        echo = []
         for d in lst:
             kind = DIDS.get(d, default)
             ln = kind[1] if kind[1] is not None else rng.randrange(0, 5)
             v = bytes(rng.randrange(0x20, 0x7F) for _ in range(ln)) if rng.random() < 0.8 else bytes(ln)
             vals[d] = v
+            echo.append(('data identifier', len(good), 2))
             good += d.to_bytes(2, 'big') + v
         expect = 'rdbi ' + (','.join('%d=%s' % (d, bh(vals[d])) for d in lst) if lst else '-')
         dline = 'dec e=rdbi %s tol=%s dids=%s' % (didcfg_line(default), b01(tol), ','.join(str(d) for d in lst))
@@ -195,7 +197,7 @@ def gen_rdbi(rng, n):
         out.append(DCase('read_data_by_identifier', (lambda c, lst=lst: c.read_data_by_identifier(list(lst))), dline, good, expect, dump,
                          {'data_identifiers': did_config(default), 'tolerate_zero_padding': tol}, rid=0x62,
                          padclass=None if (last_all or 0 in lst) else ('tol' if tol else 'notol'),
-                         echo_fields=[('data identifier', 0, 2)]))
+                         echo_fields=echo))
     return out
 
 
@@ -413,6 +415,8 @@ def gen_dtc(rng, n, nrec_max=6):
         ext = 2
         extline = 'i2'
         padunit = None
+        recoffs = []        # positions (in the reply data) of record numbers that echo the requested one
+        dtcoff = None       # (position of the 3-byte DTC number, compared by the client?)
         snapdids = SNAP_DIDS if k > 1 else {d_ & 0xFF: l_ for d_, l_ in SNAP_DIDS.items()}
         if k >= 3:      # identifiers using the whole width, top bit included
             snapdids = {(d_ | (1 << (8 * k - 1))) if i % 2 else d_: l_ for i, (d_, l_) in enumerate(SNAP_DIDS.items())}
@@ -478,7 +482,7 @@ def gen_dtc(rng, n, nrec_max=6):
                 p['sev'] = 0x20
         elif g == 'snapdtc':
             st = rng.randrange(256)
-            recno = rng.choice([1, 2, 0x10, 0xFF])
+            recno = rng.choice([1, 2, 0x10, 0xEF, 0xF0, 0xFE, 0xFF])
             p['dtc'], p['snap'] = dtcid, recno
             if sf == 0x18:
                 memsel = ms
@@ -489,6 +493,8 @@ def gen_dtc(rng, n, nrec_max=6):
             for i in range(nrec):
                 rn = recno if recno != 0xFF else rng.randrange(1, 0xF0)
                 nd = rng.randrange(1, 4)
+                if recno != 0xFF:
+                    recoffs.append(1 + len(hdr) + 4 + len(body))
                 body += bytes([rn, nd])
                 for j in range(nd):
                     d_ = rng.choice(list(snapdids))
@@ -496,16 +502,19 @@ def gen_dtc(rng, n, nrec_max=6):
                     body += d_.to_bytes(k, 'big') + val
                     snaps.append('%d/%d/%s' % (rn, d_, val.hex()))
             good = hdr + dtcid.to_bytes(3, 'big') + bytes([st]) + body
+            dtcoff = (1 + len(hdr), True)
             recs = ['%d:%d:0:-:-:%s:-' % (dtcid, st, '+'.join(snaps) if snaps else '-')]
             cnt = 1
         elif g == 'snaprec':
-            recno = rng.choice([1, 2, 0xFF])
+            recno = rng.choice([1, 2, 0xEF, 0xF0, 0xFE, 0xFF])
             p['snap'] = recno
             body = b''
             for i in range(nrec):
                 rn = recno if recno != 0xFF else rng.randrange(1, 0xF0)
                 idb, st = nz(3), rng.randrange(256)
                 nd = rng.randrange(1, 3)
+                if recno != 0xFF:
+                    recoffs.append(1 + len(body))
                 body += bytes([rn]) + idb + bytes([st, nd])
                 snaps = []
                 for j in range(nd):
@@ -516,6 +525,8 @@ def gen_dtc(rng, n, nrec_max=6):
                 recs.append('%d:%d:0:-:-:%s:-' % (int.from_bytes(idb, 'big'), st, '+'.join(snaps)))
             if nrec == 0:
                 body = bytes([recno if recno != 0xFF else 1])       # record number without DTC (allowed by the standard)
+                if recno != 0xFF:
+                    recoffs.append(1)
             good = body
             cnt = nrec
         elif g == 'extdtc':
@@ -533,9 +544,12 @@ def gen_dtc(rng, n, nrec_max=6):
             for i in range(nrec):
                 rn = recno if recno < 0xF0 else rng.randrange(1, 0xF0)
                 val = rb(rng, ext)
+                if recno < 0xF0:
+                    recoffs.append(1 + len(hdr) + 4 + len(body))
                 body += bytes([rn]) + val
                 exts.append('%d/%s' % (rn, bh(val)))
             good = hdr + dtcid.to_bytes(3, 'big') + bytes([st]) + body
+            dtcoff = (1 + len(hdr), False)
             recs = ['%d:%d:0:-:-:-:%s' % (dtcid, st, '+'.join(exts) if exts else '-')]
             cnt = 1
             p['extmode'] = mode
@@ -606,6 +620,11 @@ def gen_dtc(rng, n, nrec_max=6):
             echo.append(('functional group', 1, 1))
         if sf == 0x16:
             echo.append(('record number', 1, 1))
+        for o_ in recoffs:
+            echo.append(('record number', o_, 1))
+        if dtcoff is not None:
+            # the DTC number is not among the echoes the property lists; the client compares it for snapshots only
+            echo.append(('dtc number (snapshot)' if dtcoff[1] else 'dtc number (extended data: not compared)', dtcoff[0], 3))
         case = DCase('read_dtc_information', (lambda c, sf=sf, kwargs=kwargs: c.read_dtc_information(sf, **kwargs)), dline, good, expect,
                      lambda r: dump_dtc(r.service_data), cfgd, rid=0x59, echo_fields=echo)
         case.group, case.sf, case.padunit, case.tol, case.ign = g, sf, padunit, tol, ign
@@ -615,8 +634,37 @@ def gen_dtc(rng, n, nrec_max=6):
     return out
 
 
+def gen_wmba(rng, n):
+    """write_memory_by_address: the reply echoes addressAndLengthFormatIdentifier, address and size (model: Driver/Mem `ml.echo`)"""
+    out = []
+    W = (8, 16, 24, 32, 40, 48, 56, 64)
+    for _ in range(n):
+        wa, ws = rng.choice(W), rng.choice(W)
+        a = rng.choice([0, 2 ** wa - 1, rng.getrandbits(wa), 2 ** (wa - 8) if wa > 8 else 1])
+        z = rng.choice([0, 2 ** ws - 1, rng.getrandbits(ws), 1])
+        mode = rng.choice(['explicit', 'config'])
+        if mode == 'explicit':
+            af, mf, caf, cmf = wa, ws, rng.choice((None,) + W), rng.choice((None,) + W)
+        else:
+            af, mf, caf, cmf = None, None, wa, ws
+        na, ns = wa // 8, ws // 8
+        good = bytes([(ns << 4) | na]) + a.to_bytes(na, 'big') + z.to_bytes(ns, 'big')
+        tail = rb(rng, rng.choice([0, 0, 2]))
+
+        def dump(r):
+            e = r.service_data
+            return 'alfid=%d a=%d s=%d' % (e.alfid_echo, e.memory_location_echo.address, e.memory_location_echo.memorysize)
+        c = DCase('write_memory_by_address', (lambda c_, a=a, z=z, af=af, mf=mf: c_.write_memory_by_address(MemoryLocation(a, z, af, mf), b'\xAA')),
+                  'ml.echo a=%d s=%d af=%s mf=%s caf=%s cmf=%s' % (a, z, on(af), on(mf), on(caf), on(cmf)), good + tail,
+                  'alfid=%d a=%d s=%d' % ((ns << 4) | na, a, z), dump, {'server_address_format': caf, 'server_memorysize_format': cmf}, rid=0x7D,
+                  echo_fields=[('address and length format', 0, 1), ('address', 1, na), ('size', 1 + na, ns)])
+        out.append(c)
+    return out
+
+
 GENERATORS = [('simple', gen_simple), ('rdbi', gen_rdbi), ('wdbi', gen_wdbi), ('ddd', gen_ddd), ('readmem', gen_readmem), ('xfer', gen_xfer), ('io', gen_io),
               ('rft', gen_rft), ('auth', gen_auth), ('dtc', gen_dtc)]
+ECHO_GENERATORS = GENERATORS + [('wmba', gen_wmba)]
 
 
 def mutations(rng, good, n=6):
